@@ -272,6 +272,48 @@ def c05g(db, res):
                 res.check(bad is None, 'C05.g', '%s:%s:receiver-flushed' % (name, hook), 'the receiver is flushed in the function that runs the hook',
                           '%s runs %s and returns successfully without %s(): the last piece of raw trailer data is delivered by the safety net in the completion function, after the COMPLETE callback' % (name, hook, fin), (bad or c).get('loc', f.loc))
     res.floor('C05.g', 'TRAILER hook runs', n, 2)
+    # the same for the header block: when the HEADERS hook runs, the raw header data has been flushed to the *_HEADER_DATA
+    # receiver and the receiver is closed - on every path, whatever the message looks like (no body, CONNECT, ...)
+    m = 0
+    for side, sd in (('request', 'req'), ('response', 'res')):
+        fin = 'htp_connp_%s_receiver_finalize_clear' % sd
+        # functions that flush on every successful path
+        flush = {fin}
+        grew = True
+        while grew:
+            grew = False
+            for n_, g in db.fn.items():
+                if n_ in flush or not g.blocks or not any(c.get('callee') in flush for b_, i_, c in g.calls()):
+                    continue
+                allp = True
+                try:
+                    for atoms, events, end, seq in P.enum_paths_seq(g, (g.entry, -1), max_paths=3000):
+                        if end[0] not in ('return', 'exit'):
+                            continue
+                        rv = P.ret_value(end[3]) if end[0] == 'return' else None
+                        if rv is not None and (lit_name(rv) in ('HTP_ERROR',) or rv.get('k') == 'var'):
+                            continue                         # error / propagated status
+                        if not any(x[0] == 'stmt' and any(c3.get('callee') in flush for c3 in nodes(x[3], lambda y: y.get('k') == 'call')) for x in seq):
+                            allp = False
+                            break
+                except AnalysisBroken:
+                    allp = False
+                if allp:
+                    flush.add(n_)
+                    grew = True
+        for name, f in sorted(db.fn.items()):
+            if not f.blocks:
+                continue
+            for b, i, st in f.stmts():
+                for hook, c in P.hook_runs(st):
+                    if hook != 'hook_%s_headers' % side:
+                        continue
+                    m += 1
+                    dom = C.dominators(f)
+                    before = any(c2.get('callee') in flush and ((bb == b and ii < i) or (bb != b and bb in dom[b])) for bb, ii, c2 in f.calls())
+                    res.check(before, 'C05.g', '%s:%s:receiver-flushed' % (name, hook), 'the header-data receiver is flushed and closed on every path to the hook',
+                              '%s runs %s on a path where the raw header data has not been flushed to the %s_HEADER_DATA receiver: the last piece of the header block arrives after the HEADERS callback - or, for a message without a body, together with bytes of whatever follows it' % (name, hook, side.upper()), c['loc'])
+    res.floor('C05.g', 'HEADERS hook runs', m, 2)
 
 
 def c05h(db, res):
